@@ -3,6 +3,9 @@ CONSTANTS MaxCalls = 3  Emit = FALSE
 CONSTANT KeyFn <- MemoKey
 CONSTANT CatFn <- MemoCat
 CONSTANT RepoFn <- MemoRepo
+CONSTANT Cat <- ByteCat
+CONSTANT Size <- ByteSize
+CONSTANT Lit <- ByteLit
 VIEW view
 INVARIANT AnswerIsReference
 INVARIANT HistoryFree
